@@ -185,9 +185,10 @@ func rewriteForalls(f string, pol int, pick func(v, sort string) (string, bool))
 }
 
 type quantReg struct {
-	f    string
-	nvar int // number of positive foralls (nesting or siblings)
-	done map[string]bool
+	f      string
+	nvar   int // number of positive foralls (nesting or siblings)
+	done   map[string]bool
+	skOnly bool // instantiated at the skolem constants of goals only (library axioms stated elsewhere with patterns)
 }
 
 func countPosForalls(f string) int {
@@ -252,6 +253,15 @@ func (s *Script) registerQuant(f string) {
 	}
 }
 
+// registerSkolemOnly records a quantified fact (already asserted in another form) whose instances
+// are added at the skolem constants of each goal only.
+func (s *Script) registerSkolemOnly(f string) {
+	if s.noInst {
+		return
+	}
+	s.quants = append(s.quants, &quantReg{f: f, nvar: 1, done: map[string]bool{}, skOnly: true})
+}
+
 func (s *Script) emitInstance(q *quantReg, tup []idxTerm) {
 	if g, ok := s.instanceOf(q, tup, true); ok {
 		s.emit("(assert " + g + ")")
@@ -308,7 +318,7 @@ func (s *Script) noteIdxF(term, sort string, force bool) {
 	it := idxTerm{term, sort}
 	s.idxTerms = append(s.idxTerms, it)
 	for _, q := range s.quants {
-		if q.nvar == 1 {
+		if q.nvar == 1 && !q.skOnly {
 			s.emitInstance(q, []idxTerm{it})
 		}
 	}
@@ -383,4 +393,56 @@ func (s *Script) skolemize(goal string) (string, []string) {
 		}
 	}
 	return g, extra
+}
+
+// weakenForalls replaces every positive-polarity engine quantifier of an asserted formula by
+// `true` (a weaker assumption). ok=false: a quantifier sits in a negative or unknown position.
+func weakenForalls(f string, pol int) (string, bool) {
+	if !strings.Contains(f, "(forall ((q.") {
+		return f, true
+	}
+	ch, ok := sexprChildren(f)
+	if !ok || len(ch) == 0 {
+		return f, false
+	}
+	polOf := func(i int) (int, bool) {
+		switch ch[0] {
+		case "assert", "and", "or":
+			return pol, true
+		case "=>":
+			if i == len(ch)-1 {
+				return pol, true
+			}
+			return -pol, true
+		case "not":
+			return -pol, true
+		case "ite":
+			if i == 1 {
+				return 0, true
+			}
+			return pol, true
+		}
+		return 0, false
+	}
+	if ch[0] == "forall" {
+		if pol == 1 {
+			return "true", true
+		}
+		return f, false
+	}
+	for i := 1; i < len(ch); i++ {
+		if !strings.Contains(ch[i], "(forall ((q.") {
+			continue
+		}
+		p, known := polOf(i)
+		if !known {
+			return f, false
+		}
+		r, ok := weakenForalls(ch[i], p)
+		if !ok {
+			return f, false
+		}
+		ch[i] = r
+	}
+	return "(" + strings.Join(ch, " ") + ")", true
 }
